@@ -31,7 +31,7 @@ structure CharsOK (K : CharClass) : Prop where
   special_not_name : ∀ c ∈ specials, isName K c = false
   special_not_ws : ∀ c ∈ specials, c ≠ ' ' → K.isWs c = false
   space_ws : K.isWs ' ' = true
-  letters : ∀ c ∈ ['T','r','u','e','F','a','l','s','X','G','U','W','E','A','i','n','V','3','x','v'], K.isAlnum c = true
+  letters : ∀ c ∈ ['T','r','u','e','F','a','l','s','X','G','U','W','E','A','i','n','V','3','x','v','t','f','o','b','d','j','m','p'], K.isAlnum c = true
   digits : ∀ c : Char, c.isDigit = true → K.isAlnum c = true
 
 variable {K : CharClass} (hK : CharsOK K) (ext : Bool)
@@ -75,7 +75,7 @@ theorem name_not_ws {c : Char} (hc : isName K c = true) : K.isWs c = false := by
   | false => rfl
   | true => rw [hK.ws_not_name c h] at hc; cases hc
 
-theorem letter_name {c : Char} (h : c ∈ ['T','r','u','e','F','a','l','s','X','G','U','W','E','A','i','n','V','3','x','v']) :
+theorem letter_name {c : Char} (h : c ∈ ['T','r','u','e','F','a','l','s','X','G','U','W','E','A','i','n','V','3','x','v','t','f','o','b','d','j','m','p']) :
     isName K c = true := by
   simp [isName, hK.letters c h]
 
